@@ -11,8 +11,8 @@ import (
 	"testing"
 	"time"
 
-	"github.com/ChainSafe/gossamer/lib/common"
 	kit "github.com/ChainSafe/gossamer/internal/verifkit"
+	"github.com/ChainSafe/gossamer/lib/common"
 	"pgregory.net/rapid"
 )
 
